@@ -22,6 +22,12 @@ pub const ELIGIBLE_NAMES: &[&str] = &[
     "Test.sol",
     "t.sol",
     "-dash.sol",
+    "Pool2.sol",
+    "Pool10.sol",
+    "Pool10Mock.sol",
+    "2.sol",
+    "10.sol",
+    "10_fixed.sol",
 ];
 
 /// (name, class) of entries the property calls inert.
